@@ -197,7 +197,7 @@ def scenarios(quick):
     out = []
     for op in ("find", "get"):
         for n in ((1, 2) if quick else (0, 1, 2, 3)):
-            for ids in ((1, 2), (7, 7)):
+            for ids in ((1, 2), (7, 7), (0, 65535), (65535, 0)):
                 # a C-GET that announces 0 sub-operations never runs the handler body: it has no poll points
                 points = [("idle", 0), ("idle", 1), ("idle", 2)] + [("poll", w, k) for w in (1, 2) for k in range(n + 1) if not (op == "get" and n == 0)]
                 for p in points:
